@@ -424,14 +424,21 @@ func checkCommitDiscipline(p *Prog, res *Result, rule string, b *batchModel, nam
 	}
 	commit := b.Commits[0].(ssa.Instruction)
 	for _, op := range b.Ops {
+		// operations staged by a builder precede whatever is done with the batch it returns
+		if b.BuiltFor != nil && op.Call.Parent() == b.Fn {
+			continue
+		}
 		// an op may sit in a branch (CAS vs PutIfNotExist); it must precede the commit on its own paths
 		if !(instrDominates(op.Call.(ssa.Instruction), commit) || reaches(op.Call.(ssa.Instruction), commit)) || reaches(commit, op.Call.(ssa.Instruction)) {
 			res.bad(rule, construct, p.pos(op.Call.Pos()), op.Kind+" is not ordered before the commit of its batch")
 			return
 		}
 	}
-	// every path from Begin to a return passes the commit
+	// every path from Begin (from the builder's call) to a return passes the commit
 	bp := posOf(b.Begin)
+	if b.BuiltFor != nil {
+		bp = posOf(b.BuiltFor.(ssa.Instruction))
+	}
 	ins, path := searchFrom(bp.b, bp.i+1, searchOpts{
 		stop: func(i ssa.Instruction) bool { return i == commit },
 		bad:  func(i ssa.Instruction) bool { _, ok := i.(*ssa.Return); return ok },
@@ -461,7 +468,13 @@ func checkExpectedProvenance(p *Prog, r *Roles, ts *tombstoneRole, a *allocInfo,
 	}
 	// form A/B/D: revision bytes of some revision value
 	if rb, ok := p.revisionBytesOf(old); ok {
+		// (the encoded revision may be a parameter of a batch helper: seen from the writer that calls it)
 		rev := p.resolveDeep(rb.Rev)
+		if prm, ok := rev.(*ssa.Parameter); ok && vb.ctx != nil && vb.ctx.Common().StaticCallee() == prm.Parent() {
+			if i := paramIndex(prm); i < len(vb.ctx.Common().Args) {
+				rev = p.resolveDeep(vb.ctx.Common().Args[i])
+			}
+		}
 		switch x := rev.(type) {
 		case *ssa.Parameter:
 			if x.Parent() == fn {
